@@ -4,7 +4,7 @@
    data seen so far.  Statements only; proofs live in Proofs/TextP.v. *)
 From Coq Require Import ZArith List Bool QArith Qcanon Arith Permutation.
 From TE Require Import Base.Val Base.Nd Base.Xq Algebra.Metric Algebra.MergeTree Algebra.Additive
-  Models.Text Proofs.TextP.
+  Models.Text Proofs.TextP Proofs.TextCatP.
 Import ListNotations.
 Open Scope nat_scope.
 
@@ -116,6 +116,28 @@ Theorem bleu_value_is_number_refuted : exists (c : bcfg) (b : bbatch),
   bleu_gamma c (bleu_beta c b) = xq_val NaN /\ xr_val (bleu_of_stats c (bleu_beta c b)) = xq_val NaN.
 Proof. exact (ex_intro _ _ (ex_intro _ _ bleu_zero_weight_witness)). Qed.
 
+(* ---- V_fixed: the repaired _bleu_score_compute (fixes/bleu-zero-weight.patch, a zero-weighted order is
+   ignored: p^0 = 1).  The theorems above speak about V_code; the harness decides from the witness
+   (n_gram=2, weights (1,0), "a b" vs "a c") which variant the tree under test is tied to. ---- *)
+Theorem bleu_spec_fixed : forall (c : bcfg) (t : mtree (add_metric (bleu_spec_add_v V_fixed))),
+  Forall (fun b => bleu_ok (fst c) b = true) (stream _ t) ->
+  bleu_gamma_v V_fixed c (run (add_metric (bleu_spec_add_v V_fixed)) c t)
+  = bleu_gamma_v V_fixed c (bleu_beta_with sent_matches_spec c (concat (stream _ t))).
+Proof. exact (bleu_class_spec_v V_fixed). Qed.
+(* the positive counterpart of bleu_value_is_number_refuted: with weights >= 0 (zeros allowed) the repaired
+   compute of an accepted corpus is always a number -- 0 or a finite positive symbolic value, never nan / inf *)
+Theorem bleu_value_is_number_fixed : forall (c : bcfg) (b : bbatch),
+  1 <= fst c -> Forall (fun w => w = 0%Qc \/ qlt 0 w = true) (bleu_weights c) -> bleu_valid c b ->
+  bleu_of_stats_v V_fixed c (bleu_beta c b) = RZero \/ exists v, bleu_of_stats_v V_fixed c (bleu_beta c b) = RFin v.
+Proof. exact bleu_value_is_number_fixed_gen. Qed.
+(* on the witness of bleu_value_is_number_refuted the repaired form gives exp(1 - 2/2) * exp(0 + 1*ln(1/2) + 0) = 1/2,
+   for the class and for the functional *)
+Theorem bleu_fixed_witness_is_product_form : exists (c : bcfg) (b : bbatch),
+  bleu_valid c b /\
+  bleu_fn_v V_fixed c b = rmul (rexp (VQ 0 1)) (rexp (radd (radd (VQ 0 1) (rmul (VQ 1 1) (rln (VQ 1 2)))) (VQ 0 1))) /\
+  class_run (bleu_spec_add_v V_fixed) c [b] = bleu_fn_v V_fixed c b.
+Proof. exact (ex_intro _ _ (ex_intro _ _ bleu_fixed_witness)). Qed.
+
 (* ---- non-vacuity ------------------------------------------------------------------------ *)
 Open Scope Z_scope.
 (* matching tokens in the middle: the diagonal shortcut is exercised; distance 2 *)
@@ -178,3 +200,6 @@ Print Assumptions bleu_spec.
 Print Assumptions bleu_functional_spec.
 Print Assumptions bleu_value_is_number_refuted.
 Print Assumptions levenshtein_unique_solution.
+Print Assumptions bleu_spec_fixed.
+Print Assumptions bleu_fixed_witness_is_product_form.
+Print Assumptions bleu_value_is_number_fixed.
